@@ -93,6 +93,13 @@ class WorkerPool:
 
     # ---------------------------------------------------------------- worker side
     def _worker_main(self, slot, rfd, wfd):
+        try:  # die with the parent (a killed check must not leave spinning workers behind)
+            import ctypes
+            ctypes.CDLL("libc.so.6", use_errno=True).prctl(1, signal.SIGKILL, 0, 0, 0)
+            if os.getppid() == 1:
+                os._exit(0)
+        except Exception:
+            pass
         signal.signal(signal.SIGALRM, _alarm)
         signal.signal(signal.SIGINT, signal.SIG_IGN)
         if self.mem:
@@ -174,7 +181,7 @@ class WorkerPool:
         del self.workers[w.slot]
 
     # ---------------------------------------------------------------- parent side
-    def map(self, payloads, on_result=None, deadline=None):
+    def map(self, payloads, on_result=None, deadline=None, should_stop=None):
         """Run handler on each payload; returns list of results (payload order).
         A result may be replaced by ("fatal", text) if the worker failed outside a marked case."""
         self.start()
@@ -184,11 +191,22 @@ class WorkerPool:
         pending = 0
         idle = [w for w in self.workers.values() if w.task is None]
         self.deadline_hit = False
+        self._abort_at = None
         while queue or pending:
-            if deadline is not None and queue and time.time() > deadline:
+            if queue and ((deadline is not None and time.time() > deadline) or (should_stop is not None and should_stop())):
                 self.deadline_hit = True
                 del queue[:]  # undone payloads keep result None
+                if not hasattr(self, "_abort_at") or self._abort_at is None:
+                    self._abort_at = time.time() + 10.0
                 continue
+            if self.deadline_hit and pending and getattr(self, "_abort_at", None) and time.time() > self._abort_at:
+                # grace period over: do not wait for chunks that crawl
+                for w in list(self.workers.values()):
+                    if w.task is not None:
+                        self._reap(w, kill=True)
+                        self._spawn(w.slot)
+                pending = 0
+                break
             while queue and idle:
                 w = idle.pop()
                 i = queue.pop()
